@@ -29,7 +29,7 @@ func init() {
 			"oracle: conservation over the issue log, nested => error, foreign recipient => error, option on => accept only inside the window with a parsable certificate, option off => same as plaintext twin; distinct = shape hash of those knobs and the outcome",
 		Directed:    c07Directed,
 		Run:         c07Run,
-		MustHit:     []string{"mode=genuine", "mode=attacker-encrypt", "mode=nested-unsigned-response", "mode=nested-signed-by-nonconforming-idp", "embed=foreign", "embed=sp", "clock=nb-1ns", "clock=nb", "clock=na", "clock=na+1ns", "validate_on", "validate_off", "keyfault=empty-cert", "keyfault=garbage-cert", "keyfault=keystore-error", "key=setter", "key=field", "key=tls", "tls_leaf_differs"},
+		MustHit:     []string{"mode=genuine", "mode=attacker-encrypt", "mode=nested-unsigned-response", "mode=nested-signed-by-nonconforming-idp", "embed=foreign", "embed=sp", "clock=nb-1ns", "clock=nb", "clock=na", "clock=na+1ns", "validate_on", "validate_off", "keyfault=empty-cert", "keyfault=garbage-cert", "keyfault=keystore-error", "key=setter", "key=field", "key=tls", "tls_leaf_differs", "clock_jump_past_sp_cert_window"},
 		RandomRuns:  map[string]int{"quick": 6000, "thorough": 60000},
 		Assumptions: []string{"encrypted layouts run with signature checking on (with checking off the library never decrypts)"},
 	})
@@ -75,6 +75,7 @@ func c07Run(r *core.Run) {
 	place := t.Int(3, "c07.place")
 
 	s := NewStd(r)
+	s.DrawLive()
 	s.DrawClockKnobs()
 	spKey := 4 + t.Int(2, "c07.spkey")
 	nb := s.Epoch.Add(time.Duration(60+t.Int(600, "c07.nb")) * time.Second).Truncate(time.Second)
@@ -249,6 +250,29 @@ func c07Run(r *core.Run) {
 			r.Fail("placement", "C07/nested-encrypted-assertion-accepted/"+mode, ctx)
 		}
 		return
+	}
+	// history on one live SP: after an accepted delivery inside the window the clock jumps past
+	// NotAfter and a fresh genuine message arrives: with the option on it must now be refused
+	if mode == "genuine" && validate && keyFault == "none" && embed != "foreign" && inWindow && out.OK() && t.Int(3, "c07.second") == 1 {
+		r.Sim.SetNow(na.Add(time.Duration(1+t.Int(100, "c07.second.off")) * time.Second).Add(-s.Cfg.Skew))
+		now2 := s.Node.Now()
+		m2 := world.GenResponse(t, s.IdP, s.Fed, now2, 1, false)
+		m2.Sign = world.PlainSigOpts(s.IdPKey, s.IdPCert)
+		m2.Assertions[0].Encrypt = mkEnc()
+		x2, err := s.IdP.Issue(m2, lay, r.Sim.Now())
+		if err != nil {
+			r.HarnessError("issue second: %v", err)
+			return
+		}
+		r.Fault("clock_jump_past_sp_cert_window")
+		_, o2 := s.Node.ValidateResponse(world.Present(x2, false, 0))
+		r.Steps++
+		r.Logf("second delivery after the clock left the window -> %s", o2.Class())
+		if o2.OK() {
+			ctx["second_now"] = now2.Format(time.RFC3339Nano)
+			r.Fail("window", "C07/decrypted-outside-sp-cert-validity/after-earlier-success", ctx)
+			return
+		}
 	}
 	// genuine encrypted message
 	switch {
